@@ -13,7 +13,8 @@ import vlib, posgen
 LIGHT = ['pos3', 'ep_hpin', 'ep_hpin_b', 'ep_dpin', 'ep_dpin2', 'ep_disc', 'ep_check', 'ep_evade', 'ep_two', 'promo_check', 'double_check',
          'mate0', 'stalemate', 'mate_in_1', 'mated_in_1', 'mate_in_2', 'kq_k', 'kr_k', 'hmc98', 'hmc99', 'hmc100', 'pins', 'pins2', 'endgame',
          'castle_free', 'castle_free_b', 'castle_att_f1', 'castle_knight', 'promo_all', 'promo_b', 'double_check2', 'castle_rights_subset',
-         'smother', 'promo_mate', 'kq_mate1', 'kr_mate1', 'kr_mate2', 'kq_mated2', 'backrank_b']
+         'smother', 'promo_mate', 'kq_mate1', 'kr_mate1', 'kr_mate2', 'kq_mated2', 'backrank_b',
+         'castle_blk_b1', 'castle_blk_b8', 'castle_blk_g1', 'castle_blk_g8', 'castle_eblk_b8', 'castle_eblk_g1']
 HEAVY = ['start', 'kiwipete', 'pos4', 'pos4m', 'pos5', 'pos6', 'cmk', 'sb4', 'max218', 'killer']
 
 def code_hash():
@@ -160,12 +161,79 @@ def scenarios(ctx, oracle):
         one = [g for g, k in posgen.playout(oracle, seeds[rng.choice(['start', 'kiwipete', 'pos4', 'pos5', 'castle_free', 'pos3'])], rng, 40, bias=4.0)]
         ss = [mk_search(3 + (k % 3), -1, 0, 0, 0, [], one[k]) for k in range(len(one))]
         sc.append(('session!', f'long{i}', ss))
+    # ... and shuffled games (men going back and forth, so that search lines step back into the game history) searched on their last positions
+    # with the full history, engine only: draws by repetition inside principal variations (C12 PV legality, C07 verdicts, C03)
+    for i in range(30 if quick else 600):
+        nm = starts[i % len(starts)]
+        game = shuffle_game(oracle, seeds[nm], rng, rng.choice([6, 8, 10, 12]))
+        keys = [x.split()[20] for x in game]
+        # (castle_free at depth 4: a rook leaves and comes back inside the line, so the placement repeats with fewer castling rights)
+        d = 4 if nm in ('kr_k', 'kq_k', 'pos3', 'endgame', 'pins', 'castle_free') else 3
+        ss = [mk_search(d, -1, 0, 0, 0, keys[:at + 1], game[at]) for at in range(max(1, len(game) - 3), len(game))]
+        sc.append(('shuffle!', f'{nm}#{i}', ss))
+    # ... and games in which only the knights shuffle, so that both sides keep their castling rights, searched on their last positions with
+    # the full history and a full trace, engine only: a rook or king leaves and comes back inside the line while a knight undoes its last move --
+    # the placement of an earlier game position with fewer rights, which is not a repetition (C07 false hits, C06 node keys)
+    for i in range(3 if quick else 60):
+        nm = ['castle_shuffle', 'castle_shuffle_b', 'kiwipete'][i % 3]
+        if nm not in seeds: continue
+        g = seeds[nm]; game = [g]
+        for k in range(rng.choice([2, 3, 4, 5])):
+            succ = [x.split('=') for x in oracle.ask('succ ' + g).split()]
+            kn = [x for x in succ if x[0].split(':')[2] in ('1', '7') and x[0].endswith(':0000')]
+            if not kn: break
+            g = rng.choice(kn)[1].replace(',', ' '); game.append(g)
+        keys = [x.split()[20] for x in game]
+        d = 2 if nm == 'kiwipete' else 3 + (i // 3) % 2
+        sc.append(('shuffle!', f'{nm}#{i}@rights', [mk_search(d, -1, 0, 0, 2, keys, game[-1])]))
     # bypass
     for name in LIGHT + HEAVY:
         if name not in seeds: continue
         for d in (1, 2):
             sc.append(('bypass', f'{name}@d{d}', [mk_search(d, -1, 0, 1, 1, [], seeds[name])]))
     return sc, seeds
+
+def sq_name(i):
+    i = int(i); return 'abcdefgh'[i % 8] + str(8 - i // 8)
+
+def uci_games(ctx, oracle):
+    """position texts (base FEN + moves) in which kings, rooks and knights go out and come back while castling rights are held;
+    the engine's own `position` command turns each into (position, history keys) -- the state a search after that command starts from"""
+    rng = ctx.rng; quick = ctx.tier == 'quick'; out = []
+    names = ['castle_free', 'castle_free_b', 'castle_shuffle', 'castle_shuffle_b', 'castle_rights_subset', 'castle_knight'] + ([] if quick else ['kiwipete', 'pos5'])
+    for i in range(24 if quick else 400):
+        nm = names[i % len(names)]
+        fen = posgen.SEED_FENS.get(nm)
+        if fen is None: continue
+        g = oracle.ask('rekey ' + posgen.fen_to_fields(fen)); moves = []; raw = []
+        for k in range(rng.choice([3, 3, 4, 5, 7])):
+            ans = oracle.ask('succ ' + g)
+            if not ans.strip(): break
+            succ = [x.split('=') for x in ans.split()]
+            succ = [x for x in succ if x[0].split(':')[3] == '12']          # no promotions
+            if not succ: break
+            pick = None
+            if len(raw) >= 2 and rng.random() < 0.7:
+                f, t = raw[-2].split(':')[:2]
+                back = [x for x in succ if x[0].split(':')[0] == t and x[0].split(':')[1] == f]
+                if back: pick = back[0]
+            if pick is None:
+                men = [x for x in succ if x[0].endswith(':0000') and x[0].split(':')[2] in ('1', '3', '5', '7', '9', '11')]
+                pick = rng.choice(men if men and rng.random() < 0.85 else succ)
+            raw.append(pick[0]); f, t = pick[0].split(':')[:2]; moves.append(sq_name(f) + sq_name(t)); g = pick[1].replace(',', ' ')
+        out.append((nm, f'fen {fen} moves ' + ' '.join(moves)))
+    return out
+
+def uci_scenarios(ctx, games):
+    """searches that start from what the engine's `position` command built (its own position record and its own history keys)"""
+    ans = ctx.engine_batch(['position ' + t for nm, t in games], shards=1)
+    sc = []
+    for i, ((nm, t), a) in enumerate(zip(games, ans)):
+        if ' | ' not in a: continue
+        gf, keys = a.split(' | ', 1)
+        for d in ((1,) if nm in ('kiwipete', 'pos5') else (1, 2, 3)):
+            sc.append(('uci-pos!', f'{nm}#{i}@d{d} [position {t}]', [mk_search(d, -1, 0, 0, 2, keys.split(), gf.strip())]))
+    return sc
 
 def expand_stops(ctx, sc, eng_answers):
     """from each stops-probe answer build one search per poll index"""
@@ -191,9 +259,11 @@ def collect(ctx):
         oracle = posgen.Oracle(ctx.model)
         try:
             sc, seeds = scenarios(ctx, oracle)
+            games = uci_games(ctx, oracle)
         finally:
             oracle.close()
         t0 = time.time()
+        sc += uci_scenarios(ctx, games)
         eng = ctx.engine_batch([seq_line(ss) for k, n, ss in sc], shards=8)
         more = expand_stops(ctx, sc, eng)
         eng += ctx.engine_batch([seq_line(ss) for k, n, ss in more], shards=8)
@@ -211,6 +281,7 @@ def collect(ctx):
             parts = e.split(' ## ')
             for j, s in enumerate(ss):
                 a = parts[j] if j < len(parts) else '<missing>'
+                if a.rstrip().endswith('||'): a = a.rstrip() + ' NEV=0'      # untraced search: empty trace part
                 jl.append(f"judgesearch {len(s['hist'])} " + ' '.join(s['hist']) + (' ' if s['hist'] else '') + s['g'] + ' @ ' + a)
                 jmap.append((si, j))
         jud = ctx.model_batch(jl)
@@ -281,7 +352,7 @@ def run_property(ctx, props_file, tags, what, tie=True, extra_rule=''):
     ctx.cov['rule'] = ('searchseq scenarios: cold searches of the seed families at depth 1-3(4); shuffled games searched on consecutive positions with a warm TT and the full game history; '
                        'stop sweeps with a poll at every node and the stop injected at every poll index; TT-bypassed depth 1-2. one evaluation = one search; '
                        'non-trivial = the search visited more than 10 nodes; distinct = distinct (position, history, depth, stop, flags)' + extra_rule)
-    nontriv = set(); events = 0
+    nontriv = set(); events = 0; unjudged = []
     found = {}
     for (si, j), v in zip(jmap, jud):
         k, n, ss = sc[si]; s = ss[j]
@@ -291,12 +362,17 @@ def run_property(ctx, props_file, tags, what, tie=True, extra_rule=''):
         if m and int(m.group(1)) > 10: nontriv.add((s['g'], tuple(s['hist']), s['depth'], s['stop'], s['extra'], s['bypass']))
         events += a.count(' ;; ')
         alltags = ([] if v == 'OK' else v.split()[1:]) + python_checks(s, a)
+        if any(t in ('answer-malformed', 'trace-unparsable') for t in alltags) and 'PANIC' not in a:
+            unjudged.append((k, n, j, a[:300]))
         for tg in alltags:
             base = tg.split('@')[0]
             if any(base.startswith(t) for t in tags):
                 found.setdefault(base, []).append((k, n, j, s, a, tg))
     ctx.cov['distinct_nontrivial'] = len(nontriv)
     ctx.cov['trace_events_judged'] = events
+    ctx.cov['searches_not_judged'] = len(unjudged)
+    if unjudged:
+        ctx.broken.append(vlib.Broken('check machinery error: the judge could not read some engine answers', json.dumps(unjudged[:5])))
     for base, items in found.items():
         items.sort(key=lambda it: len(it[4]))
         k, n, j, s, a, tg = items[0]
